@@ -14,7 +14,7 @@ SPEC = {
     "engine": "E1 (IncomprRandMeth, SRF) + E2 (summate_incompr) + symbolic differentiation pass",
     "files": FILES,
     "functions": ["IncomprRandMeth.__call__/_create_unit_vector", "SRF.__call__ (vector field)", "summate_incompr, abs_square (E2)"],
-    "bounds": {"quick": {"dim": "2 and 3", "modes": "2", "point": "one symbolic evaluation point"}, "thorough": {"modes": "3; SRF with mean velocity through the Field pipeline"}},
+    "bounds": {"quick": {"dim": "2 and 3", "modes": "2", "point": "one symbolic evaluation point"}, "thorough": {"modes": "4; SRF with mean velocity through the Field pipeline"}},
     "stubs": ["random draws symbolic (any amplitudes, any wave vectors with |k| != 0)"],
     "oracle": "div u = sum_d d u_d / d x_d = 0 identically; mean = mean_u e1; the mode projector I - k k^T/|k|^2 is symmetric and idempotent",
     "outside": ["the variance proportions of the components (an average over directions on the sphere: an integral)"],
@@ -151,7 +151,7 @@ def job_projector(dim, tier):
 
 
 def jobs(tier, seed):
-    nm = 3 if tier == "thorough" else 2
+    nm = 4 if tier == "thorough" else 2
     js = []
     for dim in (2, 3):
         js.append(Job(f"div-d{dim}", job_divergence, dim, nm, False, tier))
